@@ -526,7 +526,8 @@ func FuzzC44Log(f *testing.F) {
 		}
 		level := 1 + int(sel>>4&7)%5
 		if sel&0x80 != 0 {
-			c.Ops = append(c.Ops, Op{Kind: "logf", Target: target, Level: level, Format: []byte(msg), Args: [][]byte{[]byte("operand")}})
+			// Format strings are programmer-supplied: curated list, fuzzed operand.
+			c.Ops = append(c.Ops, Op{Kind: "logf", Target: target, Level: level, Format: []byte(formats[len(msg)%len(formats)]), Args: [][]byte{[]byte(msg)}})
 		} else {
 			c.Ops = append(c.Ops, Op{Kind: "log", Target: target, Level: level, Args: [][]byte{[]byte(msg)}})
 		}
